@@ -99,21 +99,29 @@ func decodeCapture(raw, handling string) string {
 
 // ---- generation -------------------------------------------------------------------------------------
 
-type c03Rule struct {
-	ID       string                     `json:"id"`
-	Scheme   string                     `json:"scheme,omitempty"`
-	Methods  []string                   `json:"methods,omitempty"`
-	Hosts    []rconfig.HostMatcher      `json:"hosts,omitempty"`
-	Slashes  string                     `json:"allow_encoded_slashes,omitempty"`
-	Route    string                     `json:"route"`
-	Params   []rconfig.ParameterMatcher `json:"path_params,omitempty"`
+type c03Route struct {
+	Route  string                     `json:"route"`
+	Params []rconfig.ParameterMatcher `json:"path_params,omitempty"`
 	// Decoy: a second, more specific rule `<route with the last wildcard replaced by the literal "decoy">` that
 	// only applies to TRACE and allows backtracking, so that lookups for other methods backtrack from a failed
 	// static branch into the wildcard route
-	Decoy    string `json:"decoy_route,omitempty"`
-	segs     []core.Seg
-	capPool  map[string][]string // wildcard name -> decoded values that satisfy its path_params
+	Decoy   string `json:"decoy_route,omitempty"`
+	segs    []core.Seg
+	capPool map[string][]string // wildcard name -> decoded values that satisfy its path_params
 }
+
+type c03Rule struct {
+	ID      string                `json:"id"`
+	Scheme  string                `json:"scheme,omitempty"`
+	Methods []string              `json:"methods,omitempty"`
+	Hosts   []rconfig.HostMatcher `json:"hosts,omitempty"`
+	Slashes string                `json:"allow_encoded_slashes,omitempty"`
+	Routes  []c03Route            `json:"routes"`
+	// Pick: index of the route the request was derived from (set per request)
+	Pick int `json:"request_derived_from_route"`
+}
+
+func (rl c03Rule) rt() c03Route { return rl.Routes[rl.Pick] }
 
 type c03Req struct {
 	Method  string `json:"method"`
@@ -200,7 +208,7 @@ var c03Shapes = []string{
 func (g *gen) c03Rule(i int) c03Rule {
 	rng := g.rng
 	id := fmt.Sprintf("c%d", i)
-	rl := c03Rule{ID: id, capPool: map[string][]string{}}
+	rl := c03Rule{ID: id}
 	rl.Scheme = []string{"", "", "http", "https"}[rng.IntN(4)]
 	switch rng.IntN(7) {
 	case 0:
@@ -221,12 +229,22 @@ func (g *gen) c03Rule(i int) c03Rule {
 		rl.Hosts = append(rl.Hosts, c03HostMatchers[rng.IntN(len(c03HostMatchers))])
 	}
 	rl.Slashes = []string{"", "off", "on", "no_decode"}[rng.IntN(4)]
-	rl.Route = strings.ReplaceAll(c03Shapes[rng.IntN(len(c03Shapes))], "{id}", id)
-	rl.segs, _ = core.ParseExpr(rl.Route)
-	if n := len(rl.segs); n >= 3 && rl.segs[n-1].Kind == core.SegSingle && rl.segs[n-2].Kind == core.SegSingle && rng.IntN(2) == 0 {
-		rl.Decoy = rl.Route[:strings.LastIndex(rl.Route, "/")] + "/decoy"
+	// 1-3 routes, each under its own sub-prefix and with its own path_params
+	for k, n := 0, []int{1, 1, 2, 3}[rng.IntN(4)]; k < n; k++ {
+		rl.Routes = append(rl.Routes, g.c03Route(fmt.Sprintf("%s/r%d", id, k)))
 	}
-	for _, s := range rl.segs {
+	return rl
+}
+
+func (g *gen) c03Route(prefix string) c03Route {
+	rng := g.rng
+	rt := c03Route{capPool: map[string][]string{}}
+	rt.Route = strings.ReplaceAll(c03Shapes[rng.IntN(len(c03Shapes))], "{id}", prefix)
+	rt.segs, _ = core.ParseExpr(rt.Route)
+	if n := len(rt.segs); n >= 3 && rt.segs[n-1].Kind == core.SegSingle && rt.segs[n-2].Kind == core.SegSingle && rng.IntN(2) == 0 {
+		rt.Decoy = rt.Route[:strings.LastIndex(rt.Route, "/")] + "/decoy"
+	}
+	for _, s := range rt.segs {
 		if s.Kind == core.SegLiteral || s.Name == "*" {
 			continue
 		}
@@ -238,38 +256,42 @@ func (g *gen) c03Rule(i int) c03Rule {
 			v := c03SegVals[rng.IntN(len(c03SegVals))]
 			switch rng.IntN(3) {
 			case 0:
-				rl.Params = append(rl.Params, rconfig.ParameterMatcher{Name: s.Name, Type: "exact", Value: v})
-				rl.capPool[s.Name] = []string{v}
+				rt.Params = append(rt.Params, rconfig.ParameterMatcher{Name: s.Name, Type: "exact", Value: v})
+				rt.capPool[s.Name] = []string{v}
 			case 1:
-				rl.Params = append(rl.Params, rconfig.ParameterMatcher{Name: s.Name, Type: "glob", Value: "{v1,1234,k=v}"})
-				rl.capPool[s.Name] = []string{"v1", "1234", "k=v"}
+				rt.Params = append(rt.Params, rconfig.ParameterMatcher{Name: s.Name, Type: "glob", Value: "{v1,1234,k=v}"})
+				rt.capPool[s.Name] = []string{"v1", "1234", "k=v"}
 			case 2:
-				rl.Params = append(rl.Params, rconfig.ParameterMatcher{Name: s.Name, Type: "regex", Value: `^[a-z0-9 ]+$`})
-				rl.capPool[s.Name] = []string{"v1", "a b", "1234"}
+				rt.Params = append(rt.Params, rconfig.ParameterMatcher{Name: s.Name, Type: "regex", Value: `^[a-z0-9 ]+$`})
+				rt.capPool[s.Name] = []string{"v1", "a b", "1234"}
 			}
 		} else {
 			switch rng.IntN(3) {
 			case 0:
-				rl.Params = append(rl.Params, rconfig.ParameterMatcher{Name: s.Name, Type: "exact", Value: "x/y z"})
-				rl.capPool[s.Name] = []string{"x/y z"}
+				rt.Params = append(rt.Params, rconfig.ParameterMatcher{Name: s.Name, Type: "exact", Value: "x/y z"})
+				rt.capPool[s.Name] = []string{"x/y z"}
 			case 1:
-				rl.Params = append(rl.Params, rconfig.ParameterMatcher{Name: s.Name, Type: "glob", Value: "docs/*"})
-				rl.capPool[s.Name] = []string{"docs/readme", "docs/a b"}
+				rt.Params = append(rt.Params, rconfig.ParameterMatcher{Name: s.Name, Type: "glob", Value: "docs/*"})
+				rt.capPool[s.Name] = []string{"docs/readme", "docs/a b"}
 			case 2:
-				rl.Params = append(rl.Params, rconfig.ParameterMatcher{Name: s.Name, Type: "regex", Value: `^[a-z]+(/[a-z0-9]+)*$`})
-				rl.capPool[s.Name] = []string{"docs", "a/b/c9", "x/y"}
+				rt.Params = append(rt.Params, rconfig.ParameterMatcher{Name: s.Name, Type: "regex", Value: `^[a-z]+(/[a-z0-9]+)*$`})
+				rt.capPool[s.Name] = []string{"docs", "a/b/c9", "x/y"}
 			}
 		}
 	}
-	return rl
+	return rt
 }
 
 func (rl c03Rule) config(hdrs map[string]any) rconfig.Rule {
+	var routes []rconfig.Route
+	for _, rt := range rl.Routes {
+		routes = append(routes, rconfig.Route{Path: rt.Route, PathParams: append([]rconfig.ParameterMatcher(nil), rt.Params...)})
+	}
 	return rconfig.Rule{
 		ID:                     rl.ID,
 		EncodedSlashesHandling: rconfig.EncodedSlashesHandling(rl.Slashes),
 		Matcher: rconfig.Matcher{
-			Routes:  []rconfig.Route{{Path: rl.Route, PathParams: append([]rconfig.ParameterMatcher(nil), rl.Params...)}},
+			Routes:  routes,
 			Scheme:  rl.Scheme,
 			Methods: append([]string(nil), rl.Methods...),
 			Hosts:   append([]rconfig.HostMatcher(nil), rl.Hosts...),
@@ -282,6 +304,7 @@ func (rl c03Rule) config(hdrs map[string]any) rconfig.Rule {
 // returns the request, the raw captures in wildcard order and the reasons why it should not match.
 func (g *gen) c03Request(rl c03Rule) (c03Req, []string, []string) {
 	rng := g.rng
+	rt := rl.rt()
 	var why []string
 	rq := c03Req{}
 	rq.Method = allMethods[rng.IntN(len(allMethods))]
@@ -326,18 +349,18 @@ func (g *gen) c03Request(rl c03Rule) (c03Req, []string, []string) {
 	var rawCaps []string
 	var parts []string
 	withSlash := rl.Slashes == "on" || rl.Slashes == "no_decode"
-	for si, s := range rl.segs {
+	for si, s := range rt.segs {
 		switch s.Kind {
 		case core.SegLiteral:
 			parts = append(parts, s.Lit)
 		case core.SegSingle:
-			if rl.Decoy != "" && si == len(rl.segs)-1 && rng.IntN(2) == 0 {
+			if rt.Decoy != "" && si == len(rt.segs)-1 && rng.IntN(2) == 0 {
 				rawCaps = append(rawCaps, "decoy")
 				parts = append(parts, "decoy")
 				continue
 			}
 			v := c03SegVals[rng.IntN(len(c03SegVals))]
-			if pool := rl.capPool[s.Name]; len(pool) > 0 && rng.IntN(5) != 0 {
+			if pool := rt.capPool[s.Name]; len(pool) > 0 && rng.IntN(5) != 0 {
 				v = pool[rng.IntN(len(pool))]
 			}
 			if withSlash && rng.IntN(6) == 0 {
@@ -348,11 +371,14 @@ func (g *gen) c03Request(rl c03Rule) (c03Req, []string, []string) {
 			parts = append(parts, raw)
 		case core.SegFree:
 			var vals []string
-			if pool := rl.capPool[s.Name]; len(pool) > 0 && rng.IntN(5) != 0 {
+			if pool := rt.capPool[s.Name]; len(pool) > 0 && rng.IntN(5) != 0 {
 				vals = strings.Split(pool[rng.IntN(len(pool))], "/")
 			} else {
 				for n := 1 + rng.IntN(3); n > 0; n-- {
 					vals = append(vals, c03SegVals[rng.IntN(len(c03SegVals))])
+				}
+				if withSlash && rng.IntN(3) == 0 { // a multi-segment remainder that also contains an encoded slash
+					vals[rng.IntN(len(vals))] = "sl/ash"
 				}
 			}
 			var enc []string
@@ -368,7 +394,7 @@ func (g *gen) c03Request(rl c03Rule) (c03Req, []string, []string) {
 	// path_params on the decoded captures
 	named := map[string]string{}
 	i := 0
-	for _, s := range rl.segs {
+	for _, s := range rt.segs {
 		if s.Kind == core.SegLiteral {
 			continue
 		}
@@ -377,7 +403,7 @@ func (g *gen) c03Request(rl c03Rule) (c03Req, []string, []string) {
 		}
 		i++
 	}
-	for _, p := range rl.Params {
+	for _, p := range rt.Params {
 		if !refTyped(p.Type, p.Value, named[p.Name], '/') {
 			why = append(why, "path_params:"+p.Name)
 		}
@@ -413,9 +439,12 @@ func TestC03(t *testing.T) {
 			rl := g.c03Rule(i)
 			rules = append(rules, rl)
 			rs.Rules = append(rs.Rules, rl.config(map[string]any{"X-Rule": rl.ID, "X-Cap": "{{ .Request.URL.Captures | toJson }}"}))
-			if rl.Decoy != "" {
+			for _, rt := range rl.Routes {
+				if rt.Decoy == "" {
+					continue
+				}
 				rs.Rules = append(rs.Rules, rconfig.Rule{ID: rl.ID + "-decoy", EncodedSlashesHandling: rconfig.EncodedSlashesHandling(rl.Slashes),
-					Matcher: rconfig.Matcher{Routes: []rconfig.Route{{Path: rl.Decoy}}, Methods: []string{"TRACE"}, BacktrackingEnabled: boolp(true)},
+					Matcher: rconfig.Matcher{Routes: []rconfig.Route{{Path: rt.Decoy}}, Methods: []string{"TRACE"}, BacktrackingEnabled: boolp(true)},
 					Execute: []config.MechanismConfig{{"authenticator": "anon"}, {"finalizer": "echo", "config": map[string]any{"headers": map[string]any{"X-Rule": rl.ID + "-decoy", "X-Cap": "{{ .Request.URL.Captures | toJson }}"}}}}})
 			}
 		}
@@ -426,6 +455,8 @@ func TestC03(t *testing.T) {
 		}
 		for _, rl := range rules {
 			for k := 0; k < perRule; k++ {
+				rl.Pick = g.rng.IntN(len(rl.Routes))
+				rt := rl.rt()
 				rq, rawCaps, why := g.c03Request(rl)
 				cs := c03Case{Rule: rl, Req: rq, Why: why}
 				u, perr := url.ParseRequestURI(rq.RawPath)
@@ -447,18 +478,18 @@ func TestC03(t *testing.T) {
 					_ = json.Unmarshal([]byte(c), &cs.ObsCaps)
 				}
 				cs.ExpRule = "default"
-				if rl.Decoy != "" && strings.HasSuffix(rq.RawPath, "/decoy") {
+				if rt.Decoy != "" && strings.HasSuffix(rq.RawPath, "/decoy") {
 					r.Count("lookups_backtracking_from_static_decoy", 1)
 					if rq.Method == "TRACE" {
 						// the more specific decoy rule applies (its only condition is the method)
 						cs.ExpRule = rl.ID + "-decoy"
 						cs.ExpCaps = map[string]string{}
 						i := 0
-						for si, s := range rl.segs {
+						for si, s := range rt.segs {
 							if s.Kind == core.SegLiteral {
 								continue
 							}
-							if s.Name != "*" && si != len(rl.segs)-1 {
+							if s.Name != "*" && si != len(rt.segs)-1 {
 								cs.ExpCaps[s.Name] = decodeCapture(rawCaps[i], rl.Slashes)
 							}
 							i++
@@ -470,7 +501,7 @@ func TestC03(t *testing.T) {
 					cs.ExpRule = rl.ID
 					cs.ExpCaps = map[string]string{}
 					i := 0
-					for _, s := range rl.segs {
+					for _, s := range rt.segs {
 						if s.Kind == core.SegLiteral {
 							continue
 						}
@@ -480,7 +511,7 @@ func TestC03(t *testing.T) {
 						i++
 					}
 				}
-				nontrivial := rl.Scheme != "" || len(rl.Methods) > 0 || len(rl.Hosts) > 0 || len(rl.Params) > 0
+				nontrivial := rl.Scheme != "" || len(rl.Methods) > 0 || len(rl.Hosts) > 0 || len(rt.Params) > 0
 				r.Case(core.Hash(cs.Rule)+core.Hash(cs.Req), nontrivial)
 				if len(why) == 0 {
 					r.Count("expected_match", 1)
@@ -490,7 +521,7 @@ func TestC03(t *testing.T) {
 						r.Count("unmet_"+strings.SplitN(w, ":", 2)[0], 1)
 					}
 				}
-				if r.Counter("sampled") < 4 && len(rl.Params) > 0 && len(why) == 0 {
+				if r.Counter("sampled") < 4 && len(rt.Params) > 0 && len(why) == 0 {
 					r.Count("sampled", 1)
 					r.Sample(cs)
 				}
@@ -531,7 +562,7 @@ func nonNil(m map[string]string) map[string]string {
 // c03Signature: narrow classes for known defects, generic otherwise
 func c03Signature(cs c03Case) string {
 	if cs.ExpRule != "default" && cs.ObsRule == "default" {
-		if len(cs.Rule.Params) > 0 && len(cs.Rule.segs) > 0 && cs.Rule.segs[len(cs.Rule.segs)-1].Kind == core.SegFree {
+		if rt := cs.Rule.rt(); len(rt.Params) > 0 && len(rt.segs) > 0 && rt.segs[len(rt.segs)-1].Kind == core.SegFree {
 			return "path-params-on-free-wildcard-route-never-match"
 		}
 		// several hosts listed, request host matches at least one but not all
@@ -547,7 +578,7 @@ func c03Signature(cs c03Case) string {
 			}
 		}
 		// path_params on a route ending in a free wildcard
-		if len(cs.Rule.Params) > 0 && len(cs.Rule.segs) > 0 && cs.Rule.segs[len(cs.Rule.segs)-1].Kind == core.SegFree {
+		if rt := cs.Rule.rt(); len(rt.Params) > 0 && len(rt.segs) > 0 && rt.segs[len(rt.segs)-1].Kind == core.SegFree {
 			return "path-params-on-free-wildcard-route-never-match"
 		}
 		return "expected-match-but-not-matched"
